@@ -742,9 +742,12 @@ class SparseArray:
         rows = self.rows
         if index.__class__ is tuple:
             m, n = unpack_index(index, self.ndim)
+            if m.__class__ is not slice:
+                md, misbool = get_array_properties(m)
+                if misbool and md == 1: m = [i for i, j in enumerate(m) if j]
             if m.__class__ is slice:
                 if m == open_slice:
-                    if n == open_slice:
+                    if n.__class__ is slice and n == open_slice:
                         return self
                     else:
                         value = np.array([i[n] for i in rows])
@@ -824,6 +827,9 @@ class SparseArray:
         value, vd, _ = reduce_ndim(value)
         if index.__class__ is tuple:
             m, n = unpack_index(index, self.ndim)
+            if m.__class__ is not slice:
+                md, misbool = get_array_properties(m)
+                if misbool and md == 1: m = [i for i, j in enumerate(m) if j]
             if m.__class__ is slice:
                 if m == open_slice:
                     if n.__class__ is slice:
@@ -843,7 +849,14 @@ class SparseArray:
                     rows = [rows[i] for i in default_range(m, len(rows))]
                     if n.__class__ is slice:
                         if n == open_slice:
-                            for i in rows: i[:] = value
+                            if vd in (0, 1):
+                                for i in rows: i[:] = value
+                            elif vd == 2:
+                                for i, j in zip(rows, value): i[:] = j
+                            else:
+                                raise IndexError(
+                                    'cannot set an array element with a sequence'
+                                )
                             return
                         else:
                             n = default_range(n, self.vector_size)
@@ -930,6 +943,7 @@ class SparseArray:
                         else:
                             raise IndexError(f'column index can be at most 1-d, not {nd}-d')
                     elif dtype is bool:
+                        if get_ndim(n) == 0: n = [n] * len(m)
                         if vd == 0:
                             if value:
                                 for i, j in zip(m, n): 
@@ -952,15 +966,10 @@ class SparseArray:
             ndim, has_bool = get_array_properties(index)
             if has_bool:
                 if ndim == 1: 
-                    if vd == 0:
-                        for i, j in enumerate(index):
-                            if j: rows[i][:] = value
-                    else:
-                        for i, j in enumerate(index):
-                            if j: rows[i][:] = value[i]
+                    rows = [rows[i] for i, j in enumerate(index) if j]
                 else:
                     self[index.nonzero() if hasattr(index, 'nonzero') else np.nonzero(index)] = value
-                return
+                    return
             elif ndim == 1:
                 rows = [rows[i] for i in index]
             elif index.__class__ is slice:
